@@ -97,3 +97,25 @@ func ZZ_C11_tssrsa_sign_and_marshal_two_threads() {
 		zzAssert(back.twoDeltaSi.Cmp(want) == 0, "and, if it carries the cached exponent, the right one")
 	}
 }
+
+// C10: share decoding with length fields close to 2^16 (the offsets are computed in uint16 in the
+// decoder): no input panics.  65543-byte inputs, the 8 header bytes symbolic (length field case split
+// over the values around the wrap), the rest zero.
+//
+//zz: prop=C10 tier=quick backend=bv timeout=600 maxpaths=2000 budget=900
+func ZZ_C10_tssrsa_share_decoding_with_long_length_fields() {
+	n := zzPick("len", 65543, 65535, 9)
+	data := make([]byte, n)
+	hdr := make([]byte, 6)
+	zzFill("header", hdr)
+	copy(data, hdr)
+	l := zzPick("lengthField", 0xFFFF, 0xFFF8, 0xFFF7, 1)
+	data[6], data[7] = byte(l>>8), byte(l)
+	if zzPick("type", 0, 1) == 0 {
+		var s SignShare
+		_ = s.UnmarshalBinary(data)
+	} else {
+		var k KeyShare
+		_ = k.UnmarshalBinary(data)
+	}
+}
